@@ -174,6 +174,27 @@ def table_layer(ctx):
                     inp={'layer': 'table', 'cls': r['cls'], 'name': r['name']}, expected='row_ok = true', observed='row_ok = false')
 
 
+def dict_key_layer(ctx):
+    """a ParameterDict key that is not the Name of the object stored under it: whatever is written under that key is never
+    read (the loops look parameters up by Name) - shown on a concrete input"""
+    model = live(ctx)[0]
+    pkgs = {c.__name__: (pkg, c) for pkg, c in paramtable.module_classes()}
+    for cls, key, name in paramtable.key_mismatches():
+        pkg, c = pkgs[cls]
+        try:
+            before = rp._values_after(pkg, c, model, '<no such key>', '1', [name])
+            after = rp._values_after(pkg, c, model, key, '5000', [name])
+        except Exception as e:  # noqa
+            before, after = None, f'{type(e).__name__}: {e}'
+        if isinstance(after, dict) and after == before:
+            ctx.violate('property', f'dict-key:{cls}:{key}', f'{cls}: ParameterDict[{key!r}] holds the parameter named {name!r}; the input line '
+                        f'"{key}, 5000" is neither rejected nor used (nothing is read under that key; the parameter formerly registered there is gone)',
+                        inp={'layer': 'dict-key', 'cls': cls, 'name': name, 'key': key, 's': '5000'}, expected='rejected by name or used', observed='silently ignored')
+        else:
+            ctx.violate('proof', f'dict-key:{cls}:{key}', f'{cls}: ParameterDict key {key!r} != Name {name!r}', inp={'layer': 'dict-key', 'cls': cls, 'name': name})
+    ctx.count('dict-keys', evaluations=sum(len(o.ParameterDict) for _, o in live(ctx)[1]))
+
+
 def reader_layer(ctx):
     model = live(ctx)[0]
     cases = []
@@ -501,6 +522,31 @@ def hip_calculate_layer(ctx):
     judge(ctx, 'hip-calculate', cases, compare_model=False)
 
 
+def validator_layer(ctx):
+    """secondary validators that Calculate calls (EconomicsS_DAC_GT.range_check, the AGS verify methods): a documented
+    bound / in-range value that ReadParameter accepted must pass them too, and still be the value in use"""
+    model, srcs, rows, idx = live(ctx)
+    cases, skipped = [], []
+    for pkg, c in paramtable.module_classes():
+        for meth in rp.VALIDATORS:
+            if not callable(getattr(c, meth, None)):
+                continue
+            base = rp.observe_validator(pkg, c, model, None, None, meth)
+            if base[0] != 'ok':
+                skipped.append(f'{c.__name__}.{meth} ({base[0]} on the defaults)')      # needs a configured / calculated model
+                continue
+            for r in rows:
+                if r['cls'] == c.__name__ and r['kind'] in ('KFloat', 'KInt'):
+                    for tag, s, v in rp.probes(r, ctx.rng, extra=ctx.n(0, 4)):
+                        if tag in ('min', 'max', 'inside', 'member'):
+                            o = rp.observe_validator(pkg, c, model, r['name'], s, meth)
+                            obs = {'o': ('A', o[1]), 'fin': o[1], 'prov': True} if o[0] == 'ok' and o[1] is not None else \
+                                  {'o': ('C', f'{o[0]}: {o[1]}'), 'fin': None, 'prov': False}
+                            cases.append(mk('validator', f'{c.__name__}.{meth}', r['name'], idx[(c.__name__, r['name'])], tag, s, v, obs))
+    ctx.note(f'secondary validators not runnable on a freshly read module (skipped): {skipped}')
+    judge(ctx, 'validator', cases, compare_model=False)
+
+
 def corpus_layer(ctx):
     """regression seeds: (class, parameter, sValue) triples, reader + module level"""
     model, srcs, rows, idx = live(ctx)
@@ -523,7 +569,7 @@ def corpus_layer(ctx):
 def correspondence(ctx, proofs_ok=True):
     import time
     paramtable.build_gen(ctx, ('Gen/ParamTable.vo', 'Gen/OptionTable.vo'))
-    for layer in (corpus_layer, table_layer, reader_layer, module_layer, family_layer, client_layer, token_layer, bool_layer, unit_layer, hip_calculate_layer):
+    for layer in (corpus_layer, dict_key_layer, table_layer, reader_layer, module_layer, family_layer, client_layer, token_layer, bool_layer, unit_layer, hip_calculate_layer, validator_layer):
         t = time.time()
         layer(ctx)
         ctx.note(f'{layer.__name__}: {time.time() - t:.1f} s')
@@ -615,7 +661,7 @@ def replay(ctx, data):
         g(ctx)
     paramtable.build_gen(ctx, ('Gen/ParamTable.vo', 'Gen/OptionTable.vo', 'Model/TokenReader.vo'))
     model, srcs, rows, idx = live(ctx)
-    k = (inp['cls'], inp['name'])
+    k = (inp['cls'].split('.')[0], inp['name'])
     if k not in idx:
         print('parameter no longer declared:', k)
         return 1
@@ -628,6 +674,14 @@ def replay(ctx, data):
         print('property', 'VIOLATED' if fails else 'holds', 'on this input')
         return 1 if fails else 0
     pkgs = {c.__name__: (pkg, c) for pkg, c in paramtable.module_classes()}
+    if inp.get('layer') in ('validator', 'dict-key'):
+        n0 = len(ctx.violations)
+        (validator_layer if inp['layer'] == 'validator' else dict_key_layer)(ctx)
+        hits = [v for v in ctx.violations[n0:] if v.key == data.get('key')]
+        for v in hits:
+            print('still failing:', v.what[:400])
+        print('property', 'VIOLATED' if hits else 'holds', 'on this input')
+        return 1 if hits else 0
     if str(inp.get('layer', '')).startswith(('unit', 'hip-calculate')):
         return replay_units(ctx, inp, k)
     if str(inp.get('layer', '')).startswith(('tok-', 'bool-', 'option-')):
